@@ -362,7 +362,7 @@ def run(ctx):
 
 
 CLAIM = {
-    "text": "Decides that a relative set is rewritten to stashed-initial + offset after the position was stashed before the first set, that the reset "
+    "text": "Decides that a relative set is rewritten to stashed-initial + offset after the position was stashed before the first set, that every definition reaching the stash is a documented source (located setpoint, obj.position, read value), that the reset "
             "plan commands every stashed device back to its stashed value as the final plan of finalize_wrapper, that every rel_* plan wraps its "
             "absolute sibling in reset_positions_decorator outside relative_set_decorator with the same device list, that rel_set / mvr go "
             "through the relative wrapper, and that forwarded keyword arguments are not swapped. Arithmetic on positions is not decided.",
